@@ -373,7 +373,9 @@ impl CsvCase {
             let mut conv = None;
             let mut charge = None;
             if layout.conversion_cols && rng.chance(1, 2) {
-                let sec_commodity = ["EUR", "USD", "GBP"].iter().find(|c| **c != primary).unwrap().to_string();
+                // (one secondary commodity per file; now and then a name with non-ASCII digits)
+                let pool: Vec<&str> = ["EUR", "USD", "GBP", "７２０３", "m²"].into_iter().filter(|c| *c != primary).collect();
+                let sec_commodity = pool[(opening.n.unsigned_abs() % pool.len() as u128) as usize].to_string();
                 let (rm, rs) = *rng.pick(&[(12i128, 1u32), (2, 0), (5, 1), (125, 2), (8, 1), (110, 0), (1092432, 6)]);
                 let rate = Q::from_parts(rm, rs).unwrap();
                 let sec = Q::int(rng.range(1, 5000) as i128).mul(Q::from_parts(1, 2).unwrap()).unwrap();
@@ -866,7 +868,7 @@ impl CamtCase {
         if new_to_old {
             entries.reverse();
         }
-        let mut case = CamtCase { currency, opening, closing: bal, entries, new_to_old, balance_layout: *rng.pick(&[0u8, 0, 1]), account: random_account(rng, "Assets"), file_name: format!("camt{}.xml", rng.below(1000)), xml: String::new(), config_yaml: String::new() };
+        let mut case = CamtCase { currency, opening, closing: bal, entries, new_to_old, balance_layout: *rng.pick(&[0u8, 0, 1]), account: { let kind = if rng.chance(1, 4) { "Liabilities" } else { "Assets" }; random_account(rng, kind) }, file_name: format!("camt{}.xml", rng.below(1000)), xml: String::new(), config_yaml: String::new() };
         case.render();
         case
     }
@@ -894,7 +896,13 @@ impl CamtCase {
         }
         for e in &self.entries {
             x.push_str("      <Ntry>\n");
-            x.push_str(&format!("        <Amt Ccy=\"{}\">{}</Amt>\n        <CdtDbtInd>{}</CdtDbtInd>\n        <Sts>BOOK</Sts>\n", c, money(e.amount), if e.credit { "CRDT" } else { "DBIT" }));
+            // a reversal indicator does not change the direction: CdtDbtInd already states it
+            let rvsl = match (e.amount.n + chrono::Datelike::ordinal(&e.booking) as i128) % 5 {
+                0 => "        <RvslInd>true</RvslInd>\n",
+                1 => "        <RvslInd>false</RvslInd>\n",
+                _ => "",
+            };
+            x.push_str(&format!("        <Amt Ccy=\"{}\">{}</Amt>\n        <CdtDbtInd>{}</CdtDbtInd>\n{}        <Sts>BOOK</Sts>\n", c, money(e.amount), if e.credit { "CRDT" } else { "DBIT" }, rvsl));
             let date = |d: NaiveDate, time: Option<&str>| match time {
                 Some(t) => format!("<DtTm>{}T{}</DtTm>", d, t),
                 None => format!("<Dt>{}</Dt>", d),
@@ -979,7 +987,9 @@ impl CamtCase {
         // of statements that carry no charge other than 0.00 records
         let charged = self.entries.iter().any(|e| e.details.iter().any(|d| d.charge.is_some()));
         let operator = if !charged && self.file_name.bytes().map(|b| b as usize).sum::<usize>() % 2 == 0 { "" } else { "operator: Okane Bank (fee)\n" };
-        let mut y = format!("path: {}\nencoding: UTF-8\naccount: {}\naccount_type: asset\n{}commodity: {}\nformat:\n", yaml_str(&self.file_name), yaml_str(&self.account), operator, self.currency);
+        // credit / debit in a camt.053 statement are relative to the account whatever its type
+        let account_type = if self.account.starts_with("Liabilities") { "liability" } else { "asset" };
+        let mut y = format!("path: {}\nencoding: UTF-8\naccount: {}\naccount_type: {}\n{}commodity: {}\nformat:\n", yaml_str(&self.file_name), yaml_str(&self.account), account_type, operator, self.currency);
         if self.new_to_old {
             y.push_str("  row_order: new_to_old\n");
         }
